@@ -283,6 +283,11 @@ class RxMixin:
         if op.get('name') is not None:
             rx.live.name = op['name']
             rx.name = op['name']
+        elif op.get('mode') == 'touch':
+            rx.live.meta               # reading creates the (empty) dictionary
+        elif op.get('mode') == 'clear':
+            rx.live.meta.clear()
+            rx.meta.clear()
         else:
             rx.live.meta[op['k']] = op['v']
             rx.meta[op['k']] = op['v']
@@ -334,7 +339,7 @@ def gen_rx_op(sim, rng, frng, cfg, gen_inner_edit):
     if not sim.rxs:
         kind = 'rx_new'
     else:
-        kind = rng.choices(['rx_norm', 'rx_obs', 'rx_copy', 'rx_edit', 'rx_meta', 'rx_new', 'rx_drop'], [10, 5, 3, 4, 1, 1, 0.5])[0]
+        kind = rng.choices(['rx_norm', 'rx_obs', 'rx_copy', 'rx_edit', 'rx_meta', 'rx_new', 'rx_drop'], [10, 5, 3, 4, 2.5, 1, 0.5])[0]
     op = {'op': kind, 'r': rng.randrange(4), 'c': rng.randrange(1 << 30)}
     if kind == 'rx_new':
         nh = max(1, len(sim.handles))
@@ -352,8 +357,13 @@ def gen_rx_op(sim, rng, frng, cfg, gen_inner_edit):
         op['names'] = [rng.randrange(len(RX_OBSERVERS)) for _ in range(rng.choice([1, 2, 3, 6]))]
         op['mnames'] = [rng.randrange(1 << 16) for _ in range(rng.choice([0, 1, 3]))]
     elif kind == 'rx_meta':
-        if rng.random() < 0.4:
+        r = rng.random()
+        if r < 0.25:
             op['name'] = 'rx%d' % rng.randrange(10)
+        elif r < 0.45:
+            op['mode'] = 'touch'
+        elif r < 0.55:
+            op['mode'] = 'clear'
         else:
             op['k'], op['v'] = 'k%d' % rng.randrange(3), 'v%d' % rng.randrange(50)
     elif kind == 'rx_edit':
